@@ -6,7 +6,9 @@ open Tinode.Gate Tinode.Wire
 
 structure St where
   s : GS := {}
-  lastTok : Option (String × Nat × Bool) := none     -- (uid, level, no-login) carried by the last token issued
+  lastTok : Option (String × Nat × Bool × Bool) := none     -- (uid, level, no-login, validated) carried by the last token issued
+  validators : Bool := false                        -- the `auth` level requires a validated e-mail
+  creds : List String := []                         -- accounts with a validated e-mail
   deriving Repr
 
 def kv (ws : List String) : List (String × String) :=
@@ -73,6 +75,8 @@ def kindOf : String → Option Kind
 def step (st : St) (ws : List String) : Option (St × String) :=
   match ws with
   | "reset" :: _ => some ({}, "ok")
+  | ["validators", x] => some ({ st with validators := x = "on" }, "ok")
+  | ["cred", u] => if knownUser u then some ({ st with creds := u :: st.creds }, "ok") else none
   | op :: rest =>
     match kindOf op with
     | none => none
@@ -102,18 +106,27 @@ def step (st : St) (ws : List String) : Option (St × String) :=
               else if scheme = "token" then
                 (if secret = "last" then
                   match st.lastTok with
-                  | some (u, l, nl) => .ok u l (u ≠ "U2") nl false
+                  | some (u, l, nl, _) => .ok u l (u ≠ "U2") nl false
                   | none => .error 400
                  else .error 400)
               else .unknownScheme
-            let (s', code, tok) := login s o
+            -- the "validated" feature of the record: scripted for `vfake`, read from the token otherwise
+            let validatedF : Bool :=
+              if scheme = "vfake" then (secret.splitOn ":").drop 3 |>.contains "validated"
+              else match st.lastTok with | some (_, _, _, v) => v | none => false
+            let missing : Bool := match o with
+              | .ok u l _ _ _ => credMissing validatedF (st.validators && l = lvlAuth) (st.creds.contains u)
+              | _ => false
+            let (s', code, tok, tokV) := loginV s o missing
             let params := match o with
-              | .ok u l _ _ _ => if code = 200 then s!" user={u} authlvl={lvlName l}{if tok then " token" else ""}" else ""
+              | .ok u l _ _ _ =>
+                if code = 200 then s!" user={u} authlvl={lvlName l}{if tok then " token" else ""}"
+                else if code = 300 ∧ tok then s!" user={u} authlvl={lvlName l} token cred=email" else ""
               | _ => ""
             let lastTok := match o with
-              | .ok u l _ nl _ => if code = 200 ∧ tok then some (u, l, nl) else st.lastTok
+              | .ok u l _ nl _ => if tok then some (u, l, nl, tokV) else st.lastTok
               | _ => st.lastTok
-            some ({ s := s', lastTok := lastTok }, render [s!"{code}/1{params}"] "" (uid, lvl) s')
+            some ({ st with s := s', lastTok := lastTok }, render [s!"{code}/1{params}"] "" (uid, lvl) s')
           | _ => none
         | .acc =>
           let tmp := kvGet m "tmp"
